@@ -171,6 +171,42 @@ Definition spec_update (s : schema) (table : string) (sh : shape) (hooks : bool)
                        && forallb (fun e => negb (negb (known s (fst e)) && raw_write table sh selects omits p (fst e))
                                             || has_cell cells r (fst e)) (snd p)) rows.
 
+(* ---- the value is a struct of another type than the model ---------------------------------------------------
+   "a field whose tag denies update permission, or marks it read-only or ignored, is never written": the tags of
+   the MODEL's field and the tags of the VALUE's field for the same column both count; zero-ness is the value's;
+   Select / Omit name fields of the model.  A column the value's type does not have is not written. *)
+Definition vfield (us : schema) (f : field) : option field :=
+  find (fun g => has_col g && String.eqb (f_db g) (f_db f)) us.
+Definition may_update_patch (table : string) (hooks : bool) (selects omits : list sitem)
+           (p : payload) (us : schema) (f : field) : bool :=
+  match vfield us f with
+  | None => false
+  | Some g =>
+      has_col f && updatable f && updatable g && negb (listed table omits f)
+      && (match selects with [] => negb (p_zero p g) | _ => listed table selects f end
+          || (hooks && tracked_update f))
+  end.
+Definition spec_update_patch (s us : schema) (table : string) (hooks : bool)
+           (selects omits : list sitem) (p : payload) (rows : list Z) (cells : list cell) : bool :=
+  forallb (fun x =>
+             mem_z (c_row x) rows
+             && match field_of s (c_col x) with
+                | Some f => may_update_patch table hooks selects omits p us f
+                            && src_eqb (c_src x) (if hooks && tracked_update f then KNow else KPay)
+                | None => false
+                end) cells
+  && forallb (fun r => forallb (fun f => negb (may_update_patch table hooks selects omits p us f && negb (f_pk f))
+                                          || has_cell cells r (f_db f)) s) rows.
+(* domain of the patch types (checked per case): every tracked update-time field of the model has a tracked
+   counterpart in the value's type (a value type WITHOUT the column leaves it stale: gorm refreshes only what the
+   value's type declares), and a value field reached through the model's column carries that column *)
+Definition patch_dom (s us : schema) : bool :=
+  forallb (fun f => negb (has_col f)
+                    || match lookup_field us (f_db f) with
+                       | Some g => has_col g && String.eqb (f_db g) (f_db f) && Bool.eqb (tracked_update g) (tracked_update f)
+                       | None => negb (tracked_update f)
+                       end) s.
+
 (* domain of the raw keys (checked per case): "tbl.*" in a Select and "*" / "tbl.*" in an Omit are not combined
    with keys the model does not know (whether they name such a column is not settled by the property text) *)
 Definition raw_dom (s : schema) (selects omits : list sitem) (ps : list payload) : bool :=
@@ -240,11 +276,16 @@ Definition may_fail (o : op) (p : payload) (stored : list srow) (model_key : mke
 
 Definition spec_case (s : schema) (table : string) (o : op) (selects omits : list sitem)
   (ps : list payload) (stored : list srow) (model_key : mkey) (where_ids : option (list Z))
-  (cells : list cell) (err : bool) : bool :=
+  (vs : option schema) (cells : list cell) (err : bool) : bool :=
   let p := match ps with p :: _ => p | [] => (0, []) end in
   if err then match cells with [] => may_fail o p stored model_key where_ids | _ => false end
        (* a failed statement writes nothing, and only a statement that may be refused fails *)
   else
+  match vs, update_shape o with
+  | Some us, Some (ShStruct, hooks) =>      (* the value is a struct of another type than the model *)
+      spec_update_patch s us table hooks selects omits p
+                        (map fst (filter (in_rows model_key where_ids) stored)) cells
+  | _, _ =>
   match o with
   | OCreate | OCreateBatch => spec_new_rows s table false selects omits ps cells
   | OCreateMap => spec_new_rows s table true selects omits [p] cells
@@ -279,4 +320,5 @@ Definition spec_case (s : schema) (table : string) (o : op) (selects omits : lis
                       (map fst (filter (in_rows model_key where_ids) stored)) cells
       | None => false
       end
+  end
   end.
